@@ -1,5 +1,9 @@
 (* driver for C04: per token  m:<status>:<head>:<ver11>:<cl|~>:<keep>:<len>:<fin options>  -> the set of (frame,keep) the model allows *)
 let () = iter_lines (fun line ->
+  match split_ws line with
+  | ["N"; s] -> print_endline (hex_of_bytes (enc_rel_uri (bytes_of_hex s)))
+  | ["L"; ab; sc; au; pa; q] -> print_endline (hex_of_bytes (dir_redirect_location (ab = "1") (bytes_of_hex sc) (bytes_of_hex au) (bytes_of_hex pa) (bytes_of_hex q)))
+  | _ ->
   let out = Buffer.create 64 in
   List.iter (fun tok ->
     match String.split_on_char ':' tok with
